@@ -59,6 +59,8 @@ def programs(tier):
             for kf in keys:
                 for fl in flags:
                     out.append({"cached": list(sub), "key": kf, "flags": fl, "args": "none"})
+    for sub in (["d"], ["page"]):
+        out.append({"cached": sub, "key": "default", "flags": "", "args": "none", "extra": "kwonly"})
     # cache_* arguments given at Template / page / section level (2^3 presence combinations), on two programs
     for sub in (["d"], ["page", "b"]):
         for mask in range(1, 8):
@@ -95,11 +97,16 @@ def build_text(prog):
         if "f" in prog["flags"]:
             dattr += ' filter="tagf"'
     lines.append('<%%def name="%s"%s>${tick("d")}d:${v}:${a}</%%def>' % (sig, dattr))
+    if prog.get("extra") == "kwonly":
+        # a cached def with a keyword-only argument after *varargs, whose own name begins with "render_"
+        lines.append('<%def name="render_k(l, *c, s=\'-\')" cached="True">${tick("k")}k:${v}:${l}${s}${s.join(c)}</%def>')
     nattr = ' cached="True"' if "n" in c else ""
     lines.append('<%%def name="o()">o[<%%def name="n()"%s>${tick("n")}n:${v}</%%def>${n()}]</%%def>' % nattr)
     battr = (' cached="True"' + (sect_args if "d" not in c else "")) if "b" in c else ""
     aattr = ' cached="True"' if "anon" in c else ""
     body = 'B:${tick("body")}${v}|${d()}|${d("y")}|${o()}|<%%block name="b"%s>${tick("b")}b:${v}</%%block>|' % battr
+    if prog.get("extra") == "kwonly":
+        body += "${render_k('L', 'p', 'q', s='/')}|"
     lines.append(body)
     text = "\n".join(lines)
     anon_line = text.count("\n") + 2
@@ -186,7 +193,20 @@ class Model:
         def body():
             self.tick("body")
             head = "\n" * (3 if self.has_page_tag() else 2) if False else ""
-            return self.lead + self.tag + "%s|%s|%s|o[%s]|%s|\n%s" % (v, d("x"), d("y"), n(), b(), anon())
+            extra = ""
+            if self.prog.get("extra") == "kwonly":
+                def krun():
+                    self.tick("k")
+                    return "k:%s:L/p/q" % v
+
+                if self.enabled and "render_render_k" in self.store:
+                    extra = self.store["render_render_k"][0] + "|"
+                else:
+                    out = krun()
+                    if self.enabled:
+                        self.store["render_render_k"] = (out, tag)
+                    extra = out + "|"
+            return self.lead + self.tag + "%s|%s|%s|o[%s]|%s|%s\n%s" % (v, d("x"), d("y"), n(), b(), extra, anon())
 
         return self.cached_run("page", "render_body", tag, body)
 
@@ -428,6 +448,8 @@ def events(cfg):
                 ev.append(("invalidate", ti, "y"))
         if "b" in c:
             ev.append(("invalidate_def", ti, "b"))
+        if prog.get("extra") == "kwonly":
+            ev.append(("invalidate_def", ti, "render_k"))
         if "n" in c:
             ev.append(("invalidate_closure", ti, "n"))
         if nt == 1:
@@ -509,8 +531,8 @@ def configs(tier):
 
 def label(c):
     p = c["prog"]
-    return "cached=%s key=%s flags=%s args=%s backend=%s%s%s" % (
-        "+".join(p["cached"]), p["key"], p["flags"] or "-", p["args"], c["backend"], " ctx" if c.get("pass_context") else "", " uris=%s" % c["uris"] if c.get("uris") else "")
+    return "cached=%s%s key=%s flags=%s args=%s backend=%s%s%s" % (
+        "+".join(p["cached"]), "+kwonly" if p.get("extra") else "", p["key"], p["flags"] or "-", p["args"], c["backend"], " ctx" if c.get("pass_context") else "", " uris=%s" % c["uris"] if c.get("uris") else "")
 
 
 def plan(tier, seed):
